@@ -276,7 +276,7 @@ fn case_json(v: Pv, hs: Hs, m: usize, w: &[(u64, f64)]) -> Value {
 
 pub fn run(rep: &mut Report) {
     quiet_panics();
-    rep.rule = "per generated weighted set (n in 1..300, and 16 / 96 sets with small m that are either 66000..140000 items large or 2..11 items inserted 66000..140000 times in total on one sketcher, m in 1..1024, weights from 8 classes incl. 1e-300..1e300, all-tiny, all-huge, one dominating item) and variant: ~14-20 executions of the real code (7 insertion orders incl. heaviest/lightest first and winners first/last, all entry points and batchings, re-insertion, 3 vs 3a, weights x 2^k, union cover, single-item unpruned reference) compared bit-exactly on signature AND registers. Distinct = digest of (variant, m, items, weights); non-trivial when n >= 2".into();
+    rep.rule = "per generated weighted set (n in 1..300, m in 1..1024, one set in 499 with m in 65530..70000; and 16 / 96 sets with small m that are either 66000..140000 items large or 2..11 items inserted 66000..140000 times in total on one sketcher, m in 1..1024, weights from 8 classes incl. 1e-300..1e300, all-tiny, all-huge, one dominating item) and variant: ~14-20 executions of the real code (7 insertion orders incl. heaviest/lightest first and winners first/last, all entry points and batchings, re-insertion, 3 vs 3a, weights x 2^k, union cover, single-item unpruned reference) compared bit-exactly on signature AND registers. Distinct = digest of (variant, m, items, weights); non-trivial when n >= 2".into();
     let nsets: u64 = rep.tier.pick(30_000, 1_500_000);
     let nlarge: u64 = rep.tier.pick(16, 96);
     let seed = subseed(rep.seed, "C02/sets", &[]);
@@ -316,6 +316,10 @@ pub fn run(rep: &mut Report) {
                 5..=7 => rng.random_range(17..129),
                 _ => rng.random_range(129..1025),
             };
+            // one set in 499 has a signature length above 2^16 (positions that do not fit 16 bits)
+            let huge_m = i % 499 == 7;
+            let m = if huge_m { rng.random_range(65_530..70_000) } else { m };
+            let n = if huge_m { rng.random_range(1..40) } else { n };
             let class = rng.random_range(0..8u32);
             // identifiers: random u64, or (realistic for pre-hashed data) ranks: consecutive integers from a base, multiples of 256
             let ids: Vec<u64> = match rng.random_range(0..6) {
